@@ -52,6 +52,9 @@ type ask struct {
 	// Patience (apiTimeout with a reply that does arrive: immediate/deferred): index into patiences, the
 	// timeout the asker is willing to wait; every one of them is far longer than the reply takes
 	Patience int `json:"patience,omitempty"`
+	// LateReplies (late): how many times the actor replies to the abandoned request (a provisional and a
+	// final answer, a hedged request answered by two replicas): every one of them is discarded
+	LateReplies int `json:"lateReplies,omitempty"`
 	// BuildDelayUs: the Ask object is built that long before it is asked (prepared batch / retry queue);
 	// the timeout budget starts with the call, not with the construction of the request
 	BuildDelayUs int `json:"buildDelayUs"`
@@ -140,6 +143,9 @@ func genScenario(t *rapid.T) scenario {
 			if a.API == apiChannel {
 				a.ReadDelayUs = rapid.SampledFrom([]int{0, 0, 20, 200}).Draw(t, "readDelay")
 			}
+			if a.Lat == latLate {
+				a.LateReplies = rapid.SampledFrom([]int{0, 0, 1, 2}).Draw(t, "lateReplies")
+			}
 			if a.Lat == latNever || a.Lat == latLate {
 				a.TimeoutKind = rapid.SampledFrom([]int{0, 0, 1, 2}).Draw(t, "timeoutKind")
 				if a.TimeoutKind == 0 {
@@ -202,7 +208,15 @@ func runScenario(s scenario) result {
 		case lateGo:
 			if a := pending[m.id]; a != nil {
 				delete(pending, m.id)
-				doReply(a)
+				// the actor reads the payload only now (a slow handler): the asker's giving up does not change
+				// the request the actor holds
+				if a.Message != m.id {
+					actorPanic.Store(fmt.Sprintf("[payload] the actor holds request %d; after the asker timed out its Message reads %d", m.id, a.Message))
+					return
+				}
+				for n := 0; n <= specs[m.id].LateReplies; n++ {
+					doReply(a)
+				}
 			}
 		case flush:
 			d := deferred
@@ -336,7 +350,7 @@ func runScenario(s scenario) result {
 		verdict, dump := vlib.ClassifyStall([]string{"c13.askerLoop"})
 		atomic.StoreInt32(&askersDone, 1)
 		if ap := actorPanic.Load(); ap != nil {
-			res.failKey, res.failMsg = "C13/reply-after-timeout-panic", ap.(string)
+			res.failKey, res.failMsg = actorFailKey(ap.(string)), ap.(string)
 			return res
 		}
 		if verdict == "blocked" {
@@ -352,7 +366,7 @@ func runScenario(s scenario) result {
 	case <-time.After(vlib.StallBudget()):
 		// the flusher cannot hand its message to the actor: the actor no longer takes messages
 		if ap := actorPanic.Load(); ap != nil {
-			res.failKey, res.failMsg = "C13/reply-after-timeout-panic", ap.(string)
+			res.failKey, res.failMsg = actorFailKey(ap.(string)), ap.(string)
 			return res
 		}
 		a, b := atomic.LoadInt64(&replyStarted), atomic.LoadInt64(&replyReturned)
@@ -385,7 +399,7 @@ func runScenario(s scenario) result {
 		}
 	case <-time.After(vlib.StallBudget()):
 		if ap := actorPanic.Load(); ap != nil {
-			res.failKey, res.failMsg = "C13/reply-after-timeout-panic", ap.(string)
+			res.failKey, res.failMsg = actorFailKey(ap.(string)), ap.(string)
 			return res
 		}
 		verdict, dump := vlib.ClassifyStall([]string{"ActorDef[...]).run"})
@@ -397,7 +411,7 @@ func runScenario(s scenario) result {
 		return res
 	}
 	if ap := actorPanic.Load(); ap != nil {
-		res.failKey, res.failMsg = "C13/reply-after-timeout-panic", ap.(string)
+		res.failKey, res.failMsg = actorFailKey(ap.(string)), ap.(string)
 		return res
 	}
 	if !vlib.WaitUntil(vlib.StallBudget(), func() bool {
@@ -569,4 +583,11 @@ func TestNearDeadline(t *testing.T) {
 			vlib.S().NonTrivial("near-deadline", fmt.Sprintf("round %d reply at %dus of a %v timeout", r, atomic.LoadInt64(&delay), timeout))
 		}
 	}
+}
+
+func actorFailKey(msg string) string {
+	if strings.HasPrefix(msg, "[payload]") {
+		return "C13/payload-changed"
+	}
+	return "C13/reply-after-timeout-panic"
 }
